@@ -551,7 +551,7 @@ def check_C01(sc, v, tier, seed, replay):
         nue = 1 + (i % 3 if tier != "quick" else (2 if i == 2 else 0))      # quick: 1, 1 and 3 UEs
         counts = {"reg": nue, "pdu": 0, "svc": 0, "rel": 0, "dereg": 0}
         opts = {"det": i, "mnc_len": 2 + i % 2, "use_opc": i in (0, 1, 4, 5) or i % 4 == 3, "gnb_bits": 22 + (seed + 4 * i) % 11,
-                "name_len": [7, 1, 150, 2, 75][i % 5], "mcc": "001" if i % 3 == 1 else None,
+                "name_len": [7, 126, 150, 82, 75, 1, 2][i % 7],      # 82 / 126 characters: an open type / the whole message of exactly 128 octets "mcc": "001" if i % 3 == 1 else None,
                 "imsi_len": [15, 15, 13, 14, 12, 11][i % 6],      # MSIN lengths 10, 9, 8, 8, 7, 5: odd and even digit counts
                 "big_amf_id": i % 3 == 0,                         # an AMF-UE-NGAP-ID that needs five octets
                 "free_msin": i % 2 == 0,                          # subscriber blocks that cross a multiple of 10^4
